@@ -458,13 +458,19 @@ func pausedReader(r *vk.Run) {
 	at := func(n int64) time.Time { return time.Unix(1000*n, 0) }
 	idx := 0
 	for _, uo := range []bool{false, true} {
-		for taken := 0; taken <= 3; taken++ {
-			if uo && taken > 0 {
+		for variant := 0; variant <= 4; variant++ {
+			if uo && variant > 0 {
 				continue
 			}
 			idx++
 			if !r.Mine(idx) {
 				continue
+			}
+			// the last variant pauses for longer than any send timeout of the library (6.5 s of real time; the verdict is
+			// still the edit script): with backpressure a collection writer waits as long as it takes
+			taken, longPause := variant, variant == 4
+			if longPause {
+				taken = 1
 			}
 			col := resource.NewCollection()
 			for _, id := range []string{"a", "b", "c", "d"} {
@@ -500,6 +506,10 @@ func pausedReader(r *vk.Run) {
 				return
 			}
 			writerWaited := !tw.Done()
+			if longPause {
+				time.Sleep(6500 * time.Millisecond)
+				r.Count("paused-reader/long-pause", 1)
+			}
 			// the reader resumes
 			done := make(chan struct{})
 			var mu sync.Mutex
@@ -518,10 +528,10 @@ func pausedReader(r *vk.Run) {
 			}
 			r.Eval(1)
 			r.Count("paused-reader-scenarios", 1)
-			r.Distinct(fmt.Sprintf("paused|%v|%d", uo, taken))
+			r.Distinct(fmt.Sprintf("paused|%v|%d|%v", uo, taken, longPause))
 			mode := map[bool]string{true: "updates-only", false: "seeded"}[uo]
 			key := "C04/paused-reader/" + mode
-			replay := map[string]any{"updatesOnly": uo, "seedsTakenBeforeThePause": taken}
+			replay := map[string]any{"updatesOnly": uo, "seedsTakenBeforeThePause": taken, "longPause": longPause}
 			desc := fmt.Sprintf("collection {a,b,c,d} stored at t=1000; a backpressured %s subscriber takes %d event(s) and pauses; one writer: Update(d, equal value, t=2000), Add(e, t=3000), Update(e, t=4000), Update(e, t=5000), Delete(a, t=6000), Add(f, t=7000); then the reader resumes", mode, taken)
 			if !tw.Done() {
 				r.Violation(key+"/writer-stuck", fmt.Sprintf("%s: the writer has not returned at the quiescent point after the reader resumed\n%s", desc, vk.DescribeGs(vk.LibraryGoroutines(gs, nil))), replay)
